@@ -257,7 +257,15 @@ def api : Handler := fun args impl =>
   let src := "".intercalate args
   { model := runProg src, more := valueOracles impl (wantTypeOf src) }
 
+def parseH : Handler := fun args _ =>
+  match args with
+  | [hx, ln] =>
+    match mkSlice hx ln with
+    | some s => { model := showR V.toText (parse (s.len + 1) s) }
+    | none => unmodelled
+  | _ => unmodelled
+
 def handlers : List (String × Handler) :=
-  [("enc", enc), ("dec", dec), ("decc", decc), ("fn", fn), ("prog", prog), ("api", api)]
+  [("enc", enc), ("dec", dec), ("decc", decc), ("fn", fn), ("prog", prog), ("api", api), ("parse", parseH)]
 
 end OFV.Driver.OF
